@@ -15,7 +15,7 @@ from . import adapters, digest, recipes
 
 PLOG_OPS = ["evaluate", "evaluate_propositions", "assume", "reduce", "negate", "errors", "flatten", "variables", "is_tautology",
             "is_contradiction", "equation_bounds", "to_json", "to_text", "to_short", "to_b64", "to_ge_polyhedron", "solve", "b64_roundtrip"]
-CFG_OPS = ["ge_polyhedron", "default_prios", "leafs", "select", "select_failing_solver", "add", "json_roundtrip"]
+CFG_OPS = ["ge_polyhedron", "default_prios", "leafs", "select", "select_failing_solver", "select_scribbling_solver", "add", "json_roundtrip"]
 # "select_builtin_solver" (no solver callable: puan_rspy's own beta solver) is implemented below but NOT drawn: the native solver does not
 # return on some generated models (shards were killed by the watchdog when it was tried), and a native loop cannot be timed out from Python
 DERIVING = {"assume", "reduce", "negate", "add", "json_roundtrip", "b64_roundtrip"}
@@ -130,6 +130,22 @@ def apply_op(obj, op, args):
     if op == "select_builtin_solver":
         # the library's own solver (no callable handed over): several requests per call, results pair with requests by position
         out = list(obj.select(*[dict(p) for p in args[0]], only_leafs=bool(args[1])))
+        return [dict(r) if isinstance(r, dict) else (dict(r[0]), r[1], r[2]) for r in out], None
+    if op == "select_scribbling_solver":
+        # a solver that uses the objective vectors it was handed as work space (a minimiser flipping the weights in place): what it was
+        # handed is its own; the configurator must answer later requests as if nothing had happened
+        inner = exact_solver()
+
+        def scribbling(polyhedron, objectives):
+            objs = list(objectives)
+            out = inner(polyhedron, [numpy.array(o, copy=True) for o in objs])
+            for o in objs:
+                try:
+                    numpy.negative(o, out=o)
+                except Exception:      # noqa
+                    pass
+            return out
+        out = list(obj.select(*[dict(p) for p in args[0]], solver=scribbling, only_leafs=bool(args[1])))
         return [dict(r) if isinstance(r, dict) else (dict(r[0]), r[1], r[2]) for r in out], None
     if op == "select_failing_solver":
         def failing(polyhedron, objectives):
